@@ -10,8 +10,9 @@ Operations (names are what replay files contain):
 
   w<n><rel><via>  write record of payload size n in {1,3,9}.  <rel><via> only matter when the write opens a new file
                   (that is the only place rolllog uses a timestamp): the new file's timestamp is the previously created
-                  file's timestamp + {'>': 1 s, '=': 0, '+': 1 us, '<': -1 s}, handed over by the virtual clock ('c',
-                  timestamp=None) or as the explicit timestamp argument ('g').  While a file is open only w<n>>c exists.
+                  file's timestamp + {'>': 1 s, '=': 0, '+': 1 us, '<': -1 s, '~': 1 s + 0.5 us}, handed over by the
+                  virtual clock ('c', timestamp=None) or as the explicit timestamp argument ('g'; '~' exists only there:
+                  a float with a sub-microsecond part, like time()).  While a file is open only w<n>>c exists.
                   Clock steps are folded into the write because rolllog reads the clock nowhere else (except the
                   constructor's refusal of files from the future, see 'ro').
   rd, rb          read() / read_block() on the reader
@@ -37,10 +38,18 @@ Oracle (the property statement, nothing more):
   * seek(('end',0)) is taken as documented ("end of all logs" known to that reader): what it does with records that are
     later appended to files which already existed at the seek is not constrained.
 
-Signatures separate root causes: violations that occur while file timestamps are not in creation order (a backward
-timestamp was accepted) are reported as C13/backward-ts-*; an existing file opened again by a roll-over is
-C13/rollover-overwrites-same-ts (or -distinct-ts when the two timestamps differ); everything else has its own plain
-signature, so fixing one defect leaves the others reportable.  Violating states are not expanded further.
+Signatures separate root causes, so that repairing one defect leaves the others reportable and a repaired defect is
+silent:
+  C13/rollover-overwrites-same-ts   a roll-over opened ("wb") a file name that exists (timestamp equals a live file's)
+  C13/backward-ts-reorders          reader-side symptom (skip / reorder / repeat / stops early / tell) while file timestamps
+                                    are not strictly increasing in creation order (an equal or earlier timestamp was accepted)
+  C13/backward-ts-prunes-wrong-file disk-side symptom (newest pruned, not oldest-first, file vanished, over budget) in that state
+  C13/backward-ts-across-writer-restart  the same, when the only later-or-equal timestamps belong to files that were deleted
+                                    before the present writer object was constructed (nothing on disk tells the writer)
+  C13/reader-skips-record, C13/reader-repeats-or-reorders, C13/reader-stops-early, C13/reader-torn-record,
+  C13/reader-seek-lands-before-position, C13/tell-*, C13/prune-*, C13/over-budget, C13/file-content, C13/unexpected-file,
+  C13/rollover-*, C13/write-return, C13/op-raises-<Exception>   the plain symptoms with strictly increasing timestamps
+Violating states are not expanded further.
 """
 
 import os
@@ -90,7 +99,10 @@ class Model:
         self.rec_file = []      # file id of record k
         self.rec_off  = []      # byte offset of record k in its file
         self.open_id  = None    # file the writer appends to, None = next write opens a new one
-        self.nonmono  = False   # some file got a timestamp <= that of a file created before it
+        self.nonmono  = False   # some file got a timestamp <= that of a file created before it: False | 'known' | 'unknown'
+                                # ('unknown': only files that were already gone when the present writer object was
+                                # constructed have a later-or-equal timestamp - nothing the writer can see tells it)
+        self.unknown  = frozenset()  # ids of those files
         self.floor    = 0       # reader was positioned at record `floor`
         self.last     = -1      # last record delivered since it was positioned
         self.endfiles = frozenset()  # files that existed at seek(end): passing over their records is not constrained
@@ -111,16 +123,30 @@ class Model:
     def ctx(self, sig):
         """Signature of a symptom.  While file timestamps are not strictly increasing in creation order (new_logfile accepted
         a timestamp that repeats or precedes an earlier file's), every symptom is attributed to that root cause: reader-side
-        symptoms to C13/backward-ts-reorders, disk-side symptoms to C13/backward-ts-prunes-wrong-file."""
+        symptoms to C13/backward-ts-reorders, disk-side symptoms to C13/backward-ts-prunes-wrong-file.  When the only files
+        with a later-or-equal timestamp were deleted before the present writer object was constructed (it cannot know them),
+        everything goes to C13/backward-ts-across-writer-restart."""
 
         if not self.nonmono:
             return f'C13/{sig}'
+        if self.nonmono == 'unknown':
+            return 'C13/backward-ts-across-writer-restart'
         if sig.startswith(('reader-', 'tell-')):
             return 'C13/backward-ts-reorders'
         if sig.startswith(('prune-', 'rollover-', 'over-budget', 'file-content', 'unexpected-file')):
             return 'C13/backward-ts-prunes-wrong-file'
 
         return f'C13/backward-ts-{sig}'
+
+    def note_ts(self, ts):
+        later = [g for g in self.files if g.ts >= ts]
+
+        if later and self.nonmono != 'known':
+            self.nonmono = 'unknown' if all(g.id in self.unknown for g in later) else 'known'
+
+    def writer_restarted(self):
+        self.open_id = None
+        self.unknown = self.unknown | {f.id for f in self.files if f.gone is not None}
 
     def excusable(self, y):
         fid = self.rec_file[y]
@@ -151,8 +177,7 @@ class Model:
                 older   = collide or [f for f in self.alive() if f.name in hit]
 
                 if not older:
-                    if any(g.ts >= ts for g in self.files):   # the requested timestamp repeats / precedes an earlier file's
-                        self.nonmono = True
+                    self.note_ts(ts)   # the requested timestamp repeats / precedes an earlier file's?
 
                     raise Violation(self.ctx('rollover-creates-no-file'), f'roll-over for record {chr(65 + idx)} with timestamp '
                         f'T0{(ts - H.T0_US) / H.SEC:+g}s left no new file on disk and changed none (the file it created carried '
@@ -177,8 +202,7 @@ class Model:
 
             f = MFile(len(self.files), actual, new[0])
 
-            if any(g.ts >= actual for g in self.files):
-                self.nonmono = True
+            self.note_ts(actual)
 
             self.files.append(f)
 
@@ -343,7 +367,7 @@ class Model:
             self.known = {f.id for f in self.alive()}
 
     def key(self):
-        return (tuple((f.name, f.gone, tuple(f.recs)) for f in self.files), tuple(self.sizes), self.open_id, self.nonmono,
+        return (tuple((f.name, f.gone, tuple(f.recs)) for f in self.files), tuple(self.sizes), self.open_id, self.nonmono, tuple(sorted(self.unknown)),
                 self.floor, self.last, tuple(sorted(self.endfiles)), tuple(sorted(self.known)), self.saved)
 
 
@@ -520,7 +544,8 @@ class Exec:
                 self.w.close()
 
                 self.w = self.r = self.open_writer()
-                m.open_id = None
+
+                m.writer_restarted()
 
                 self.snap = H.snapshot(self.dir)  # the constructor of a writable log prunes
 
